@@ -16,7 +16,7 @@ RULE = ('sequences of 10-40 reservation requests (create / update / delete; ids 
         'stored as requested; does not fit => exc.InvalidInputError and directory unchanged; any other exception type '
         'is a violation. Non-trivial: the sequence contains a decision where an existing reservation shares a limited '
         'trait with the request, or an update of an existing reservation; distinct by hash of the request kinds/decisions.')
-ASSUMPTIONS = ['in-memory LDAP directory under the real treadmill.admin._ldap.Admin (vf/api/ldapfake.py): add/delete/modify/search replaced',
+ASSUMPTIONS = ['in-memory LDAP directory under the real treadmill.admin._ldap.Admin (vf/api/ldapfake.py): add/delete/modify/search replaced; in two of three cases instead real ldap3 connections (non-raising, as _connect_to_uri makes them) on the mock directory ldap3 ships (MOCK_SYNC), made to return attribute subtypes (options) like a directory does, under the unmodified Admin - one connection, or a separate write connection',
                'context.GLOBAL.admin._conn set to a real AdminLdapBackend on that directory',
                'schema-invalid requests are outside the domain (a jsonschema ValidationError counts as an input error)']
 BUDGET = {'quick': (150, 30.0), 'thorough': (4000, 240.0)}
@@ -82,7 +82,12 @@ def run(ctx):
     from ..api import ldapfake
 
     for idx, rng in ctx.cases():
-        be = ldapfake.make_backend()
+        # the directory under the real Admin: the harness' own in-memory one (wire operations of Admin replaced), or
+        # - one layer lower - ldap3's mock directory under real ldap3 connections (Admin entirely real), with one
+        # connection or with a separate connection to the write server
+        layer = ('own', 'ldap3-mock', 'ldap3-mock-write-connection')[idx % 3]
+        be = ldapfake.make_backend() if layer == 'own' else ldapfake.make_mock_backend(layer.endswith('write-connection'))
+        ctx.count('cases_directory_' + layer)
         context.GLOBAL.admin._conn = be        # pylint: disable=protected-access
         api = api_alloc.API().reservation
         directory = be._ldap_conn
@@ -141,6 +146,22 @@ def run(ctx):
                 kinds.append('delete')
                 ctx.count('deletes')
                 continue
+            if key in mirror and rng.random() < 0.07:
+                # a client retries its create (or a second client races it): the directory refuses the duplicate
+                dup = dict(cpu='0%', memory='0M', disk='0M', partition=mirror[key]['partition'])
+                before = copy.deepcopy(directory.store)
+                try:
+                    api.create(rid, dup)
+                    ctx.violation('duplicate-create-accepted', 'create %s for an existing reservation was accepted' % rid,
+                                  case=dict(step=step, id=rid))
+                    break
+                except (exc.InvalidInputError, admin_exc.AlreadyExistsResult):
+                    ctx.count('duplicate_creates_refused')
+                if directory.store != before:
+                    ctx.violation('store-changed-on-reject', 'duplicate create %s refused but the directory changed' % rid,
+                                  case=dict(step=step, id=rid))
+                    break
+                kinds.append('create:duplicate')
             verb = 'update' if key in mirror else 'create'
             scale = rng.choice([1, 1, 1, 2, 4])
             rsrc = dict(cpu='%d%%' % (rng.choice([0, 10, 50, 100, 200, 300]) * scale),
